@@ -54,7 +54,11 @@ func zzRoundOf(b []byte) (uint64, bool) {
 	if len(b) == 0 {
 		return 0, false
 	}
-	var r zzResult
+	// only the round is read back: the relay renders byte strings as hex (hexjson), which encoding/json does
+	// not decode as such
+	var r struct {
+		Round uint64 `json:"round"`
+	}
 	if err := json.Unmarshal(b, &r); err != nil {
 		return 0, false
 	}
